@@ -4,9 +4,10 @@ CONSTANTS
   MaxT = 17
   NExp = 3
   MaxLevel = 100000
+  CovPrint = FALSE
 CONSTANT Timers <- TimerSet
 INIT Init
 NEXT Next
 CONSTRAINT LevelBound
 CHECK_DEADLOCK FALSE
-INVARIANTS IHeapOrder IBackIndex IRootIsMin INoStale IDepthMinimal INoDangling INoLeak IMultiset IDeinit
+INVARIANTS IBackIndex IMultiset IHeapOrder IRootIsMin INoStale IDepthMinimal INoDangling INoLeak IDeinit
